@@ -328,9 +328,156 @@ Definition ft_model_ok (c : ftcase) : bool :=
 Definition ft_spec_ok (c : ftcase) : bool :=
   if (0 <? ft_n c)%nat && (ft_deadline c + 1000000000 <? ft_w c) then (ft_admitted c <=? ft_n c)%nat else true.
 
+(** * Reconfiguration under load: waiters take tickets as fast as they can (window 0) while
+      another goroutine alternates SetMaxEvents(0) / SetMaxEvents(size + k mod 3); then
+      SetMaxEvents(0), a probe Wait, SetMaxEvents(n), SetWindow(w) and k callers that wait at
+      most [deadline].  Observed: did all setter calls return, was the probe admitted, how many
+      of the k callers were admitted, how many stamps are in the ring. *)
+
+Record stcase := ST {
+  st_n0 : nat; st_flips : nat; st_size : nat;
+  st_n : nat; st_w : Z; st_k : nat; st_deadline : Z;
+  st_cfg_returned : bool; st_probe : bool; st_final_returned : bool;
+  st_admitted : nat; st_stamps : nat
+}.
+
+(** one admission, then SetMaxEvents(n), the loop running ahead *)
+Definition cfg_step (s : state) (n : nat) : option state :=
+  match admit_one s (now s) with
+  | Some s1 => match step s1 (SetMaxEvents (now s1) n) with
+               | Some s2 => Some (settle s2 (now s2))
+               | None => None end
+  | None => None
+  end.
+
+Fixpoint flips_run (size k i : nat) (s : state) : option state :=
+  match k with
+  | O => Some s
+  | S k' =>
+      match cfg_step s 0 with
+      | Some s1 => match cfg_step s1 (size + Nat.modulo i 3) with
+                   | Some s2 => flips_run size k' (S i) s2
+                   | None => None end
+      | None => None
+      end
+  end.
+
+(** (probe admitted, admissions among the k callers): one representative interleaving — by
+    Race.loop_never_dies / live_loop_offers every interleaving keeps the loop alive *)
+Definition stress_model (c : stcase) : option (bool * nat) :=
+  let t0 := Z.max (st_w c) 0 + 1 in
+  (* the first 200 flips: the interleaving is a representative one anyway, and every flip
+     returns the model to the same kind of state *)
+  match flips_run (st_size c) (Nat.min (st_flips c) 200) 0 (settle (init (st_n0 c) 0 t0) t0) with
+  | Some s1 =>
+      match cfg_step s1 0 with
+      | Some s2 =>
+          match admit_one s2 (now s2) with
+          | Some s3 =>
+              let s4 := try_step s3 (SetMaxEvents (now s3) (st_n c)) in
+              let s5 := try_step s4 (SetWindow (now s4) (st_w c)) in
+              let s6 := settle s5 (now s5) in
+              Some (true, burst_admitted (st_k c) s6 (now s6) (st_deadline c))
+          | None => Some (false, O)
+          end
+      | None => None
+      end
+  | None => None
+  end.
+
+Definition st_model_ok (c : stcase) : bool :=
+  match stress_model c with
+  | Some (pr, a) =>
+      st_cfg_returned c && st_final_returned c && Bool.eqb pr (st_probe c) &&
+      (a =? st_admitted c)%nat && (st_stamps c =? (if (st_n c =? 0)%nat then 0 else st_admitted c))%nat
+  | None => false
+  end.
+
+(** the property: the limiter stays usable after the limit has been changed at run time (the
+    setters return, a zero window does not make anybody wait), and the limit in force holds *)
+Definition st_spec_ok (c : stcase) : bool :=
+  st_cfg_returned c && st_probe c && st_final_returned c &&
+  (if (0 <? st_n c)%nat && (st_deadline c + 1000000000 <? st_w c) then (st_admitted c <=? st_n c)%nat else true).
+
+(** the same stress under Go's race detector (thorough tier, a separate process): number of
+    data races reported on the limiter's fields, number of rounds in which the loop died *)
+Record rdcase := RD { rd_races : nat; rd_died : nat }.
+Definition rd_ok (c : rdcase) : bool := (rd_races c =? 0)%nat && (rd_died c =? 0)%nat.
+
+(** * First attempts through the real ACMEIssuer against a mock ACME CA (class e2e-throttle):
+      [calls] Issue calls for one CA + account released together at instant 0 with
+      RateLimitEvents = n and RateLimitEventsWindow = w; observed at the CA: the arrival instants
+      of their orders (ascending); the same for a second account, and the orders of retries
+      (attempts = 1: the test CA first, not throttled; after the success there the production
+      order of the same call goes through the limiter like a first attempt). *)
+
+Record e2case := E2 {
+  e2_cfg : Z;         (* issuer configuration: 0 TestCA is another directory, 1 TestCA = CA, 2 TestCA empty *)
+  e2_n : nat; e2_w : Z; e2_calls : nat; e2_retries : nat; e2_calls2 : nat;
+  e2_first : list Z;  (* arrivals of the orders of the first attempts (attributed by name at the CA) *)
+  e2_arr : list Z;    (* + the production orders that follow a retry's success at a distinct test CA *)
+  e2_arr2 : list Z; e2_retry : list Z; e2_failed : nat
+}.
+
+(** orders the code sends through the limiter of the CA + account: every first attempt, in
+    every configuration; of a retry (attempts = 1) only the production order that follows its
+    success at a DISTINCT test CA (doIssue with attempts 0) — with TestCA = CA or empty the
+    retry's single order is not throttled *)
+Definition e2_limited (c : e2case) : nat :=
+  (e2_calls c + (if (e2_cfg c =? 0)%Z then e2_retries c else 0))%nat.
+
+(** admission instants the model gives [c] waiters that arrive together at [t0] at a fresh limiter *)
+Fixpoint burst_times (c : nat) (s : state) (t0 : Z) : list Z :=
+  match c with
+  | O => []
+  | S c' =>
+      match due s with
+      | Some u => let t := Z.max u t0 in
+                  match admit_one s t with
+                  | Some s' => t :: burst_times c' s' t0
+                  | None => [] end
+      | None => []
+      end
+  end.
+
+Definition e2_model_times (n : nat) (w : Z) (c : nat) : list Z :=
+  let t0 := Z.max w 0 + 1 in
+  map (fun t => t - t0) (burst_times c (settle (init n w t0) t0) t0).
+
+(** an order arrives after the admission of its call, and not absurdly late *)
+Fixpoint arrivals_match (model obs : list Z) : bool :=
+  match model, obs with
+  | [], [] => true
+  | m :: mr, o :: or => (m <=? o) && (o <=? m + late) && arrivals_match mr or
+  | _, _ => false
+  end.
+
+Definition e2_model_ok (c : e2case) : bool :=
+  (e2_failed c =? 0)%nat &&
+  arrivals_match (e2_model_times (e2_n c) (e2_w c) (e2_limited c)) (e2_arr c) &&
+  (length (e2_first c) =? e2_calls c)%nat &&
+  arrivals_match (e2_model_times (e2_n c) (e2_w c) (e2_calls2 c)) (e2_arr2 c) &&
+  (length (e2_retry c) =? e2_retries c)%nat && forallb (fun t => (0 <=? t) && (t <=? late)) (e2_retry c).
+
+(** the property at the CA: the calls began at 0 or later, so at most n orders of one account
+    arrive before w, at most 2n before 2w, ...: the j-th arrival is not before (j / n) * w *)
+Fixpoint arrivals_spaced (n : nat) (w : Z) (j : nat) (l : list Z) : bool :=
+  match l with
+  | [] => true
+  | t :: r => (Z.of_nat (Nat.div j n) * w <=? t) && arrivals_spaced n w (S j) r
+  end.
+
+Definition e2_spec_ok (c : e2case) : bool :=
+  match e2_n c with
+  | O => true
+  | n => (* every first attempt passes the limiter of its CA + account, whatever TestCA is *)
+         arrivals_spaced n (e2_w c) 0 (e2_first c) && arrivals_spaced n (e2_w c) 0 (e2_arr2 c) &&
+         (length (e2_first c) <=? e2_calls c)%nat && (length (e2_arr2 c) <=? e2_calls2 c)%nat
+  end.
+
 (** * Wire *)
 
-Inductive anycase := AHistory (c : tcase) | AFirst (c : ftcase).
+Inductive anycase := AHistory (c : tcase) | AFirst (c : ftcase) | AStress (c : stcase) | ARace (c : rdcase) | AE2E (c : e2case).
 
 Definition get_zlist : dec (list Z) := get_list get_z.
 Definition get_op : dec op :=
@@ -341,14 +488,31 @@ Definition get_tcase : dec tcase :=
   (n <- get_nat ;; w <- get_z ;; t <- get_z ;; os <- get_list get_op ;; ret (Case n w t os))%Z.
 Definition get_ftcase : dec ftcase :=
   (n <- get_nat ;; w <- get_z ;; k <- get_nat ;; d <- get_z ;; a <- get_nat ;; st <- get_nat ;; ret (FT n w k d a st))%Z.
+Definition get_stcase : dec stcase :=
+  (n0 <- get_nat ;; fz <- get_z ;; let f := Z.to_nat (Z.min fz 1000) in
+   sz <- get_nat ;; n <- get_nat ;; w <- get_z ;; k <- get_nat ;; d <- get_z ;;
+   cr <- get_bool ;; pr <- get_bool ;; fr <- get_bool ;; a <- get_nat ;; st <- get_nat ;;
+   ret (ST n0 f sz n w k d cr pr fr a st))%Z.
+Definition get_rdcase : dec rdcase := (r <- get_nat ;; d <- get_nat ;; ret (RD r d))%Z.
+Definition get_e2case : dec e2case :=
+  (cfg <- get_z ;; n <- get_nat ;; w <- get_z ;; c <- get_nat ;; r <- get_nat ;; c2 <- get_nat ;;
+   fa <- get_zlist ;; a <- get_zlist ;; a2 <- get_zlist ;; ra <- get_zlist ;; f <- get_nat ;;
+   ret (E2 cfg n w c r c2 fa a a2 ra f))%Z.
 Definition get_case : dec anycase :=
   (kind <- get_z ;;
-   if kind =? 0 then (c <- get_tcase ;; ret (AHistory c)) else (c <- get_ftcase ;; ret (AFirst c)))%Z.
+   if kind =? 0 then (c <- get_tcase ;; ret (AHistory c))
+   else if kind =? 1 then (c <- get_ftcase ;; ret (AFirst c))
+   else if kind =? 2 then (c <- get_stcase ;; ret (AStress c))
+   else if kind =? 3 then (c <- get_rdcase ;; ret (ARace c))
+   else (c <- get_e2case ;; ret (AE2E c)))%Z.
 
 Definition check_line (l : list Z) : Z :=
   match decode get_case l with
   | Some (AHistory c) => code (model_ok c) (spec_ok c)
   | Some (AFirst c) => code (ft_model_ok c) (ft_spec_ok c)
+  | Some (AStress c) => code (st_model_ok c) (st_spec_ok c)
+  | Some (ARace c) => code (rd_ok c) (rd_ok c)
+  | Some (AE2E c) => code (e2_model_ok c) (e2_spec_ok c)
   | None => code_decode_error
   end.
 
@@ -358,5 +522,10 @@ Definition explain_line (l : list Z) : list Z :=
   match decode get_case l with
   | Some (AHistory c) => [first_bad (settle (init (n0 c) (w0 c) (t_create c)) (t_create c)) (ops c) 0]
   | Some (AFirst c) => [match first_throttle_model c with Some a => Z.of_nat a | None => -1 end]
+  | Some (AStress c) => match stress_model c with
+                        | Some (pr, a) => [if pr then 1 else 0; Z.of_nat a]
+                        | None => [-1] end
+  | Some (ARace c) => [Z.of_nat (rd_races c); Z.of_nat (rd_died c)]
+  | Some (AE2E c) => e2_model_times (e2_n c) (e2_w c) (e2_limited c)
   | None => []
   end.
